@@ -22,6 +22,14 @@ CLAIMED = {
         'SequenceIterator, DataIterator, one- and two-stage pipeline iterators with aggregates.',
         'Bounded: n<=6, k<=3, nested depth 2, <=3 saved states, <=4 generations. Threaded configurations are handled by the scheduler-driven part.',
         '5/C10'),
+    'C19': (
+        'TLA+ spec (Rebatch.tla: declarative chunking + carry-over machine, refinement checked by TLC); every behaviour replayed on rebatched_args and pipelines',
+        'TLC checks at every step of the transcribed carry-over machine that emitted chunks are a prefix of the declarative '
+        'chunking, rows are conserved, the carry is smaller than B and the final output is exact; every (size sequence, B, pad) '
+        'behaviour is replayed on rebatched_args for list/tuple/ndarray x 1-2 columns x inferred/explicit column count and '
+        'through TreeTransform.apply(batch_size, fn_batch_size).',
+        'Bounded: <=4 input batches of size 0..5, B<=6, pad on/off. Rows are abstract ids; column c holds 10*row+c.',
+        '5/C19'),
 }
 
 PENDING = {}
